@@ -26,6 +26,36 @@ CLAIMS = {
   text="Generated lists (empty/oversize/non-ASCII/'='-bearing keys, binary/empty/absent values, duplicates and case variants, sizes around 255) must either be refused at creation or arrive unchanged (keys, bytes, order, none-vs-empty, first duplicate wins, case-insensitive lookup); arbitrary and damaged byte strings must decode without panic into strings that lie inside the record.",
   note="A zero-length TXT string may be read as end-of-data or skipped. HashMap inputs holding case variants of one key are skipped (order undefined).",
   ref="§6 C16"),
+ "C07": dict(
+  technique="runtime trace monitor over the simulated wire: per registration x interface x family rules on probe count/spacing/content, announcement time, repeat and content, silence before the announcement",
+  text="Thousands of generated registration scenarios (1-3 interfaces, v4/v6, 1-4 services, shared hosts, subtypes, automatic addresses, probing on/off, staggering, forced boundary jitters, queries injected while probing, an interface appearing later) run against the real daemon under a virtual clock; every packet it emits is parsed by the independent parser and checked against P1-P6 with exact virtual-time arithmetic (lazy stepping) or +g (eager).",
+  note="Oversleep stepping excluded (schedule presumes the daemon is woken when it asks). Services sharing a host name use the same address set (otherwise the daemon conflicts with its own announcements, noted in DESIGN §12).",
+  ref="§6 C07"),
+ "C12": dict(
+  technique="runtime differential monitor (same scenario woken only on request vs additionally every 10 ms) + invariant on hooked state at every loop iteration (requested wake-up <= every future due time) + idle-spin detector",
+  text="Paired lazy/eager runs of registration, search, lost-tiebreak, interface-check-interval, expiry/goodbye/flush/verify/stop and follow-up scenarios: every action of the eager run must occur in the lazy run and not later (W1); at every gate of the lazy run the requested wake-up is compared with all pending due times read from a full state snapshot (W2); three idle iterations asking to be woken at or before their own time are a spin (W3).",
+  note="Constant jitter per pair (HashMap visiting order must not change who gets which jitter). The interface-check timer is a local of the run loop: covered by W1 only.",
+  ref="§6 C12"),
+ "C13": dict(
+  technique="runtime trace monitor: per-channel protocol automaton over delivered events plus a wire rule (no question for a stopped type/host until a new search starts), over generated API histories observed for hours of virtual time",
+  text="Generated histories of browse / browse again / browse_cache / stop / resolve_hostname (timeouts, letter-case variants) / stop_resolve_hostname / dropped receivers / shutdown with packet arrivals, calls clustered +-1 ms around retransmission instants, watched for 20 s or 2-3 virtual hours: T1 first event SearchStarted, T2 Found before Resolved, T3 exactly one final SearchStopped (SearchTimeout first on timeout), T4 no query for the stopped name afterwards, T5 no replay from the cache on re-browse, T6 no query for a cache-only browse.",
+  note="Services of browsed types live on hosts nobody resolves by name. One known finding (cache-only browse refreshes cached records) in known_findings.json.",
+  ref="§6 C13"),
+ "C14": dict(
+  technique="runtime monitor over enumerated command-queue positions and iteration splits of shutdown (simulated daemon behind the gate) + real-thread stress with resolved-receiver check",
+  text="Part A: shutdown at every position of every sequence of N<=1 (thorough N<=2) commands out of 20 kinds, released in one iteration or split over up to three, with 0-3 announced services and open searches, plus sampled sequences to N=8: goodbyes once per announced service x family (X1), one final SearchStopped per open search (X2), Shutdown reported and every later call refused (X3), every reply receiver ever handed out resolved or closed once the daemon thread ended (X4), no panic (X5), second shutdown harmless (X6). Part B: hundreds (thorough: 20000) of real daemons on private ports with 2-8 racing client threads.",
+  note="Part B samples OS schedules. One known finding (residual send/exit race) in known_findings.json.",
+  ref="§6 C14"),
+ "C15": dict(
+  technique="runtime crash/liveness monitor: panic hook + daemon-thread exit guard + post-input liveness probes, under hostile API arguments and hostile datagram streams in a simulated world with conflict injection",
+  text="Thousands of cases of 1-3 hostile API calls (names from a hostile grammar incl. labels of 0-256 bytes, multi-byte boundaries, dots/backslashes, existing rename suffixes, totals around 255; extreme numbers), each followed by 6.3 virtual seconds in which every probe is answered with conflicting data, and hundreds of 20-80-datagram streams (random, mutated, grammar-hostile, and valid record chains with hostile labels that the daemon re-encodes in follow-ups); afterwards status must be Running, a fresh browse must start, and the browse opened before the input must still report a new instance.",
+  note="Checked profile (overflow checks and debug assertions on), so overflow-only panics are reported too.",
+  ref="§6 C15"),
+ "C19": dict(
+  technique="runtime trace monitor with attribution: every observed PTR/A/AAAA question is matched against the back-off chain of the running search, refresh marks computed from the delivered-record history, or a new-interface event; unexplained or missing queries are violations",
+  text="The search histories of C13 over 20 s and 2-3 virtual hours plus lone searches over three virtual days: each chain instant (start, +1 s, +2 s ... doubling to 3600 s, relative to the previous actual query) must produce its query on every interface and family (B1), gaps never exceed one hour (B3), and every other query for the same question needs a refresh mark (80/85/90/95 %) of a live cached record or an interface arrival (B2).",
+  note="Follow-up and verify queries ask other questions (instance ANY/SRV/TXT) and are not judged here.",
+  ref="§6 C19"),
 }
 
 NOT_YET = "monitor not built yet (work in progress; the technique family applies, see DESIGN.md §6)"
